@@ -240,8 +240,28 @@ Proof.
   rewrite backup_gc_cons. exists l'. destruct m; [reflexivity|contradiction|reflexivity].
 Qed.
 
+Lemma ends_word_app : forall p s, ends_word s = true -> ends_word (p ++ s) = true.
+Proof.
+  intros p s H. unfold ends_word in *. rewrite rev_app_distr.
+  destruct (rev s) as [|c r]; [discriminate|]. exact H.
+Qed.
+
+Lemma ends_word_alnum : forall w, forallb is_alnum w = true -> w <> [] -> ends_word w = true.
+Proof.
+  intros w Hw Hne. unfold ends_word. destruct (rev w) as [|c r] eqn:E.
+  - apply (f_equal (@rev N)) in E. rewrite rev_involutive in E. contradiction.
+  - rewrite forallb_forall in Hw. rewrite (Hw c); [reflexivity|].
+    apply in_rev. rewrite E. left. reflexivity.
+Qed.
+
+Lemma lower_all_alnum : forall w, forallb is_lower w = true -> forallb is_alnum w = true.
+Proof.
+  intros w H. rewrite forallb_forall in *. intros x Hx. apply lower_alnum, H, Hx.
+Qed.
+
+(* the follow condition is only needed when the type ends in a word *)
 Definition P_ty (t : ty) (s : bytes) : Prop :=
-  forall fuel F b k l, follow_ok k = true ->
+  forall fuel F b k l, (ends_word s = true -> follow_ok k = true) ->
     (length (s ++ k) < fuel)%nat -> (length (s ++ k) < F)%nat ->
     exists l', read_type fuel F (mkPst (gc b (s ++ k)) l)
                = ROk t (mkPst (gc (rev s ++ b) k) l').
@@ -267,7 +287,7 @@ Proof.
   destruct (advance_gap g3 Hg3 F (58 :: rev g2 ++ rev (n0 :: n') ++ b) (st ++ R) l1
               (RTy_stop t st R Ht) ltac:(lia)) as [l2 E2].
   rewrite app_length in Hf, HF.
-  destruct (PT f F (rev g3 ++ 58 :: rev g2 ++ rev (n0 :: n') ++ b) R l2 HR ltac:(lia) ltac:(lia))
+  destruct (PT f F (rev g3 ++ 58 :: rev g2 ++ rev (n0 :: n') ++ b) R l2 (fun _ => HR) ltac:(lia) ltac:(lia))
     as [l3 E3].
   exists l3. destruct m; [|rewrite E2; cbn [bind]; rewrite E3; reflexivity|contradiction].
   rewrite E2. cbn [bind]. rewrite E3. reflexivity.
@@ -281,9 +301,10 @@ Proof. intros x H. apply upper_range in H. split; apply N.eqb_neq; lia. Qed.
 
 Lemma P_builtin : forall w t, builtin_of w = Some t -> forallb is_lower w = true -> P_ty t w.
 Proof.
-  intros w t Hb Hw fuel F b k l Hk Hf HF.
+  intros w t Hb Hw fuel F b k l Hk0 Hf HF.
   destruct fuel as [|f]; [lia|]. rewrite read_type_S. cbn [cu lc].
-  destruct w as [|x w']; [discriminate|]. cbn [app]. rewrite next_gc_cons.
+  destruct w as [|x w']; [discriminate|].
+  pose proof (Hk0 (ends_word_alnum _ (lower_all_alnum _ Hw) ltac:(discriminate))) as Hk. cbn [app]. rewrite next_gc_cons.
   cbv beta iota zeta. rewrite m63_91.
   pose proof Hw as Hw0. cbn [forallb] in Hw0. apply andb_true_iff in Hw0. destruct Hw0 as [Hx _].
   destruct (lower_not_63_91 x Hx) as [E1 E2]. rewrite E1, E2. rewrite backup_gc_cons.
@@ -294,10 +315,13 @@ Qed.
 
 Lemma P_alias : forall n, type_name_ok n = true -> P_ty (TAlias n) n.
 Proof.
-  intros n Hn fuel F b k l Hk Hf HF.
+  intros n Hn fuel F b k l Hk0 Hf HF.
   destruct fuel as [|f]; [lia|]. rewrite read_type_S. cbn [cu lc].
   destruct n as [|x r]; [discriminate|]. cbn [type_name_ok] in Hn.
   apply andb_true_iff in Hn. destruct Hn as [Hx Hr].
+  assert (Hk : follow_ok k = true).
+  { apply Hk0, ends_word_alnum; [|discriminate].
+    cbn [forallb]. rewrite (upper_alnum x Hx), Hr. reflexivity. }
   cbn [app]. rewrite next_gc_cons. cbv beta iota zeta. rewrite m63_91.
   destruct (upper_not_63_91 x Hx) as [E1 E2]. rewrite E1, E2. rewrite backup_gc_cons.
   unfold read_keyword. rewrite read_span_none;
@@ -312,7 +336,8 @@ Proof.
   intros e s PE Hm fuel F b k l Hk Hf HF.
   destruct fuel as [|f]; [lia|]. rewrite read_type_S. cbn [cu lc app].
   rewrite next_gc_cons. cbv beta iota zeta. cbn [app length] in Hf, HF.
-  destruct (PE f F (63 :: b) k l Hk ltac:(lia) ltac:(lia)) as [l' E]. rewrite E.
+  destruct (PE f F (63 :: b) k l (fun E => Hk (ends_word_app _ _ E)) ltac:(lia) ltac:(lia))
+    as [l' E]. rewrite E.
   cbn [bind]. rewrite Hm. exists l'. norm_list. reflexivity.
 Qed.
 
@@ -324,7 +349,8 @@ Proof.
   unfold read_keyword. rewrite read_span_none; [|reflexivity|cbn [length]; lia].
   cbn [bind cu lc]. change (bytes_eqb [] kw_string) with false. cbv beta iota.
   rewrite next_gc_cons. cbv beta iota.
-  destruct (PE f F (93 :: 91 :: b) k l Hk ltac:(lia) ltac:(lia)) as [l' E]. rewrite E.
+  destruct (PE f F (93 :: 91 :: b) k l (fun E => Hk (ends_word_app _ _ E)) ltac:(lia) ltac:(lia))
+    as [l' E]. rewrite E.
   cbn [bind]. exists l'. norm_list. reflexivity.
 Qed.
 
@@ -337,7 +363,9 @@ Proof.
   unfold read_keyword. rewrite read_span_word; [|reflexivity|reflexivity|lia].
   cbn [bind cu lc]. rewrite bytes_eqb_refl. cbv beta iota.
   rewrite next_gc_cons. cbv beta iota. rewrite app_length in Hf, HF. cbn [length] in Hf, HF.
-  destruct (PE f F (93 :: rev kw_string ++ 91 :: b) k l Hk ltac:(lia) ltac:(lia)) as [l' E].
+  destruct (PE f F (93 :: rev kw_string ++ 91 :: b) k l
+              (fun E => Hk (ends_word_app ([91] ++ kw_string ++ [93]) s E)) ltac:(lia) ltac:(lia))
+    as [l' E].
   rewrite E. cbn [bind]. exists l'. f_equal. f_equal. f_equal.
   unfold kw_string. norm_list. reflexivity.
 Qed.
@@ -403,6 +431,9 @@ Qed.
 
 Lemma starts_lower_stop : forall s, starts_lower s = true -> stop s = true.
 Proof. intros [|c r] H; [discriminate|]. apply stop_lower. exact H. Qed.
+
+Lemma starts_lower_stop_app : forall s X, starts_lower s = true -> stop (s ++ X) = true.
+Proof. intros [|c r] X H; [discriminate|]. apply stop_lower. exact H. Qed.
 
 Lemma read_type_open' : forall g g1 s1 X f F b l,
   gap g -> gap g1 -> starts_lower s1 = true ->
@@ -538,7 +569,7 @@ Proof.
   destruct (read_fields_gap g1' f' F LTyped ((n, t) :: tf) ef
               (44 :: rev g4 ++ rev st ++ rev g3 ++ 58 :: rev g2 ++ rev n ++ b)
               (s1' ++ 41 :: k) l1 H1'
-              (starts_lower_stop _ ltac:(destruct s1'; [discriminate|exact Hs1']))
+              (starts_lower_stop_app s1' (41 :: k) Hs1')
               ltac:(rewrite !app_length; cbn [length]; lia)) as [l2 E2].
   rewrite E2.
   destruct (IH f' F (rev g1' ++ 44 :: rev g4 ++ rev st ++ rev g3 ++ 58 :: rev g2 ++ rev n ++ b)
@@ -576,7 +607,7 @@ Proof.
   destruct f as [|f']; [lia|].
   destruct (read_fields_gap g1' f' F LBare tf (n :: ef) (44 :: rev g2 ++ rev n ++ b)
               (s1' ++ 41 :: k) l1 H1'
-              (starts_lower_stop _ ltac:(destruct s1'; [discriminate|exact Hs1']))
+              (starts_lower_stop_app s1' (41 :: k) Hs1')
               ltac:(rewrite !app_length; cbn [length]; lia)) as [l2 E2].
   rewrite E2.
   destruct (IH f' F (rev g1' ++ 44 :: rev g2 ++ rev n ++ b) k l2 LBare tf (n :: ef)
@@ -585,3 +616,70 @@ Proof.
               ltac:(rewrite app_length; cbn [length]; lia)) as [l3 E3].
   rewrite E3. exists l3. norm_list. reflexivity.
 Qed.
+
+Lemma P_struct : forall g fs s, gap g -> P_fields fs s ->
+  P_ty (TStruct fs) ([40] ++ g ++ s ++ [41]).
+Proof.
+  intros g fs s Hg (g1 & s1 & -> & H1 & Hs1 & IH) fuel F b k l Hk Hf HF.
+  replace (([40] ++ g ++ (g1 ++ s1) ++ [41]) ++ k)
+    with (40 :: g ++ g1 ++ s1 ++ 41 :: k) in * by (norm_list; reflexivity).
+  destruct fuel as [|[|f]]; [lia|cbn [length] in Hf; lia|].
+  destruct (read_type_open' g g1 s1 (41 :: k) f F b l Hg H1 Hs1 HF) as [l1 E1].
+  rewrite E1. cbn [length] in Hf, HF. rewrite !app_length in Hf, HF.
+  destruct (IH f F (rev g1 ++ rev g ++ 40 :: b) k l1 LNone [] [] ltac:(discriminate)
+              ltac:(rewrite app_length; lia) ltac:(rewrite app_length; lia)) as [l2 E2].
+  rewrite E2. exists l2. cbn [rev app]. f_equal. f_equal. f_equal. norm_list. reflexivity.
+Qed.
+
+Lemma P_enum : forall g ns s, gap g -> P_names ns s ->
+  P_ty (TEnum ns) ([40] ++ g ++ s ++ [41]).
+Proof.
+  intros g ns s Hg (g1 & s1 & -> & H1 & Hs1 & IH) fuel F b k l Hk Hf HF.
+  replace (([40] ++ g ++ (g1 ++ s1) ++ [41]) ++ k)
+    with (40 :: g ++ g1 ++ s1 ++ 41 :: k) in * by (norm_list; reflexivity).
+  destruct fuel as [|[|f]]; [lia|cbn [length] in Hf; lia|].
+  destruct (read_type_open' g g1 s1 (41 :: k) f F b l Hg H1 Hs1 HF) as [l1 E1].
+  rewrite E1. cbn [length] in Hf, HF. rewrite !app_length in Hf, HF.
+  destruct (IH f F (rev g1 ++ rev g ++ 40 :: b) k l1 LNone [] [] ltac:(discriminate)
+              ltac:(rewrite app_length; lia) ltac:(rewrite app_length; lia)) as [l2 E2].
+  rewrite E2. exists l2. cbn [rev app]. f_equal. f_equal. f_equal. norm_list. reflexivity.
+Qed.
+
+Scheme RTy_min := Minimality for RTy Sort Prop
+  with RFields_min := Minimality for RFields Sort Prop
+  with RNames_min := Minimality for RNames Sort Prop.
+Combined Scheme RTy_mutmin from RTy_min, RFields_min, RNames_min.
+
+Lemma types_complete :
+  (forall t s, RTy t s -> P_ty t s) /\
+  (forall fs s, RFields fs s -> P_fields fs s) /\
+  (forall ns s, RNames ns s -> P_names ns s).
+Proof.
+  apply RTy_mutmin.
+  - apply P_builtin; reflexivity.
+  - apply P_builtin; reflexivity.
+  - apply P_builtin; reflexivity.
+  - apply P_builtin; reflexivity.
+  - apply P_builtin; reflexivity.
+  - exact P_alias.
+  - intros e s _ PE. apply P_array, PE.
+  - intros e s _ PE. apply P_map, PE.
+  - intros e s _ PE Hm. apply P_maybe; assumption.
+  - exact P_struct0.
+  - intros g fs s Hg _ _ PF. apply P_struct; assumption.
+  - intros g ns s Hg _ _ PN. apply P_enum; assumption.
+  - intros n t g1 g2 g3 g4 st Hn H1 H2 H3 H4 Ht PT. apply P_fields_one; assumption.
+  - intros n t g1 g2 g3 g4 st fs s Hn H1 H2 H3 H4 Ht PT _ _ PF.
+    apply P_fields_cons; assumption.
+  - intros n g1 g2 Hn H1 H2. apply P_names_one; assumption.
+  - intros n g1 g2 ns s Hn H1 H2 _ _ PN. apply P_names_cons; assumption.
+Qed.
+
+Theorem read_type_complete : forall t s, RTy t s ->
+  forall fuel F b k l, (ends_word s = true -> follow_ok k = true) ->
+    (length (s ++ k) < fuel)%nat -> (length (s ++ k) < F)%nat ->
+    exists l', read_type fuel F (mkPst (gc b (s ++ k)) l)
+               = ROk t (mkPst (gc (rev s ++ b) k) l').
+Proof. intros t s H. exact (proj1 types_complete t s H). Qed.
+
+Print Assumptions read_type_complete.
